@@ -433,6 +433,8 @@ structure DState where
   mopen : List MBatch := []        -- accepted batches with unanswered calls
   mexpect : List JVal := []        -- elements of the accepted frame still to be returned by Read
   mnoBatch : Bool := false
+  eofFed : Bool := false           -- harness closed the input after the fed frames
+  eofSeen : Bool := false          -- Read has reported the end of the stream
 
 def frameElems : JVal → Option (List JVal × Bool)
   | .arr l => some (l, true)
@@ -446,7 +448,8 @@ def isCallW : JVal → Option Id
   | _ => none
 
 def isNotifW : JVal → Bool
-  | .obj kvs => (lookup wireDecode_Method_name kvs).isSome && (lookup wireDecode_ID_name kvs).isNone
+  | .obj kvs => (lookup wireDecode_Method_name kvs).isSome &&
+      (match lookup wireDecode_ID_name kvs with | none => true | some .null => true | _ => false)
   | _ => false
 
 def wellFormedBatch (d : DState) (elems : List JVal) : Bool :=
@@ -512,6 +515,7 @@ def stepWire (d : DState) (toks : List String) (impl : String) : DState × Verdi
         if d.pid == "C19" && wfMsg m then
           match impl.splitOn " | " with
           | [_, b] => if b == "ok " ++ showMsg m then none
+              else if bigInt (encodeId m.id) then some (pfx d "decode_encode_msg: integer id beyond 2^53 altered by decoding the encoded message (F1)")
               else some (pfx d "decode_encode_msg: decoding the encoded message does not give the message back")
           | _ => some (pfx d "decode_encode_msg: no encoding produced for a well-formed message")
         else none
@@ -711,58 +715,67 @@ def stepWire (d : DState) (toks : List String) (impl : String) : DState × Verdi
     | _ => bad d
   | ["io.ver", f] =>
     ({ d with io := { d.io with noBatch := f == "1" }, mnoBatch := f == "1" }, { model := "ok" })
+  | ["io.eof"] => ({ d with eofFed := true }, { model := "ok" })
   | ["io.read"] =>
+    -- the harness does not issue a Read that would block (nothing queued, nothing fed, input open)
+    if d.io.queue.isEmpty && (d.eofSeen || (d.io.wire.isEmpty && !d.eofFed)) then (d, { model := "would-block" }) else
+    let d := if d.io.queue.isEmpty && d.io.wire.isEmpty then { d with eofSeen := true } else d
     let (io', out) := opRead false d.io
     let q := io'.queue.length
     let model := match out with
       | .msg m => s!"msg {showMsg m} q{q}"
       | .err e => s!"err {showRErr e} q{q}"
-    -- monitor
+    -- monitor (on the implementation's observation only)
     let implOK := impl.startsWith "msg "
     let implQ := ((lastTok impl).drop 1).toString.toNat?.getD 0
     let implMsg : Option Msg := match itoks with
       | "msg" :: r => (pMsg r).map (·.1)
       | _ => none
-    let (d1, viol) : DState × Option String :=
+    let same (m : Msg) (e : JVal) (which : String) : Option String :=
+      if !validWire e then none else
+      match wireDiff e (encodeMsg m) with
+      | none => none
+      | some "id" =>
+        let idw := match e with | .obj kvs => lookup wireDecode_ID_name kvs | _ => none
+        if bigInt idw then some (pfx d s!"batch_roundtrip: Read returned the frame's {which} element with its integer id beyond 2^53 altered (F1)")
+        else some (pfx d s!"batch_roundtrip: Read returned a message whose id differs from the frame's {which} element")
+      | some f => some (pfx d s!"batch_roundtrip: Read returned a message whose {f} differs from the frame's {which} element")
+    let (d1, v19, v02) : DState × Option String × Option String :=
       match d.mexpect with
       | e :: rest =>
         -- a message of an already accepted frame
         let v := match implMsg with
-          | some m => if !validWire e || msgMatchesWire m e then none
-              else some (pfx d "batch_roundtrip: Read returned a message that differs from the frame's next element")
+          | some m => same m e "next"
           | none => some (pfx d "batch_roundtrip: Read failed on a message of an already accepted frame")
-        ({ d with mexpect := rest }, v)
+        ({ d with mexpect := rest }, v, none)
       | [] =>
         match d.mwire with
-        | [] => (d, if impl.startsWith "err eof" then none else some (pfx d "batch_roundtrip: Read returned something at end of input"))
+        | [] => (d, (if impl.startsWith "err eof" then none else some (pfx d "batch_roundtrip: Read returned something at the end of the input")), none)
         | raw :: w =>
           let d := { d with mwire := w }
           match frameElems raw with
-          | none => (d, none)
+          | none => (d, none, none)
           | some (elems, isBatch) =>
             let wf := wellFormedBatch d elems && !(isBatch && d.mnoBatch)
             let calls := elems.filterMap isCallW
             let hasNotif := elems.any isNotifW
             if implOK then
               let v := match implMsg, elems with
-                | some m, e :: _ => if !validWire e || msgMatchesWire m e then none
-                    else some (pfx d "batch_roundtrip: Read returned a message that differs from the frame's first element")
+                | some m, e :: _ => same m e "first"
                 | _, _ => none
               let d := { d with mexpect := (elems.drop 1).take implQ }
               let d := if isBatch && calls ≠ [] then { d with mopen := d.mopen ++ [{ calls := calls, hasNotif := hasNotif }] } else d
-              (d, v)
+              (d, v, none)
             else
-              let v := if wf then
-                  some (if isBatch && hasNotif && impl.startsWith "err dup" then
-                      pfx d "batch_exactly_once: a well-formed batch containing notifications is rejected as duplicate ids; the read error tears the session down (F2)"
-                    else pfx d "batch_roundtrip: a well-formed frame is rejected by Read")
-                else none
-              ({ d with mexpect := (elems.drop 1).take implQ }, v)
-    let viol := if d.pid == "C02" then
-        (match viol with
-          | some c => if (c.splitOn "batch_exactly_once").length > 1 || (c.splitOn "rejected").length > 1 then some c else none
-          | none => none)
-      else viol
+              let f2 := isBatch && hasNotif && (impl.startsWith "err dup" || impl.startsWith "err seen")
+              let v19 := if !wf then none
+                else if f2 then some (pfx d "batch_roundtrip: a well-formed batch containing a notification is rejected by Read (notifications are tracked like calls, F2)")
+                else some (pfx d "batch_roundtrip: a well-formed frame is rejected by Read")
+              let v02 := if !wf then none
+                else if f2 then some (pfx d "batch_exactly_once: a well-formed batch containing a notification is rejected as a duplicate id; the read error tears the session down (F2)")
+                else some (pfx d "batch_exactly_once: a well-formed batch is rejected by Read")
+              ({ d with mexpect := (elems.drop 1).take implQ }, v19, v02)
+    let viol := if d.pid == "C02" then v02 else v19
     ({ d1 with io := io' }, { model := model, violated := viol })
   | "io.write" :: r =>
     match pMsg r with
@@ -771,20 +784,25 @@ def stepWire (d : DState) (toks : List String) (impl : String) : DState × Verdi
       let (open', exp, hasNotif) := monWrite d.mopen m
       let implKind := itoks.head?.getD ""
       let implVals : List JVal := (pMany pJ (itoks.drop 1)).1
-      let viol : Option String :=
-        if implKind == "panic" then some (pfx d "batch_exactly_once: ioConn.Write panicked")
+      -- C19: what is written is a well-framed encoding of the message(s) given
+      let v19 : Option String :=
+        if implKind == "panic" then some (pfx d "decode_total: ioConn.Write panicked")
         else if implKind == "badframe" then some (pfx d "ndjson_roundtrip: the bytes written are not one compact payload followed by a single LF")
+        else if implKind == "single" then
+          (match implVals with
+            | [v] => if (wireDiff v (encodeMsg m)).isNone then none else some (pfx d "batch_roundtrip: the message written differs from the message given")
+            | _ => some (pfx d "bad-observation"))
+        else none
+      -- C02: batch replies
+      let v02 : Option String :=
+        if implKind == "panic" then some (pfx d "batch_exactly_once: ioConn.Write panicked")
         else match exp with
           | .nothing =>
             if implKind == "nothing" then none
             else some (pfx d "batch_exactly_once: batch reply flushed before the last call of the batch was answered")
-          | .single sm =>
-            if implKind == "single" then
-              (match implVals with
-                | [v] => if msgMatchesWire sm v then none else some (pfx d "batch_roundtrip: the message written differs from the message given")
-                | _ => some (pfx d "bad-observation"))
-            else if implKind == "nothing" && d.io.outCap > 0 then none
-            else if implKind == "array" && d.io.outCap > 0 then none
+          | .single _ =>
+            if implKind == "single" then none
+            else if d.io.outCap > 0 && (implKind == "nothing" || implKind == "array") then none
             else some (pfx d "batch_exactly_once: a message outside any batch was not written on its own")
           | .array ms =>
             if implKind == "array" then
@@ -794,6 +812,7 @@ def stepWire (d : DState) (toks : List String) (impl : String) : DState × Verdi
               some (if hasNotif then pfx d "batch_exactly_once: batch reply withheld after its last call was answered — the batch contains a notification (F2)"
                     else pfx d "batch_exactly_once: batch reply withheld after its last call was answered")
             else some (pfx d "batch_exactly_once: last response of a batch written on its own instead of the batch array")
+      let viol := if d.pid == "C02" then v02 else v19
       ({ d with io := io', mopen := open' }, { model := showWriteOut out, violated := viol })
     | _ => bad d
   | _ => bad d
